@@ -40,6 +40,10 @@ type POp struct {
 	Torn  bool   `json:"torn,omitempty"`  // crash: the write in flight at the cut lands as a prefix
 	OneW  bool   `json:"onew,omitempty"`  // part: only messages towards the node are blocked
 	Pause bool   `json:"pause,omitempty"` // part: the process is paused (unreachable for clients too; the meta service fails it over)
+	Early bool   `json:"early,omitempty"` // crash: the earliest legal kill instant - right after the victim's last observed action (delivered message, answered client)
+	Tight bool   `json:"tight,omitempty"` // w (synchronous): deliveries stop at the instant the client has its answer
+	Until string `json:"until,omitempty"` // tick: stop when a vote request is queued (vote; vote2: one of another node) / pump: stop when a granted vote was delivered (voteresp)
+	Only  string `json:"only,omitempty"`  // pump: vote = only links whose next message is a vote request or response
 }
 
 type PCase struct {
@@ -56,6 +60,11 @@ type PCase struct {
 	SGSplit bool   `json:"sg_split"` // shard groups of one hour and time slots in two consecutive hours: the second group is created by the first write into it
 	SplitMeta bool `json:"split_meta"` // crash cuts may fall inside a run of raft.meta writes (lib/raftlog's own subject, C17)
 	Second  int    `json:"second"` // node killed in the closing "later, different failure" exercise (-1: seeded)
+	Yield   bool   `json:"yield,omitempty"` // every file-system mutation of a node first yields to the node's other goroutines (the raft message sender above all)
+	Flav    string `json:"flav,omitempty"`  // generator flavour (statistics only)
+	// crash images: "observed" = the journal may be cut anywhere after the victim's last OBSERVED action (every generated
+	// case); "" = at or after its last send, delivered or not (the rule of replay files recorded before, kept for them)
+	Cut string `json:"cut,omitempty"`
 	Ops     []POp  `json:"ops"`
 }
 
@@ -138,6 +147,11 @@ func (worldP) Simplify(c PCase) []PCase {
 		n.SplitMeta = false
 		out = append(out, n)
 	}
+	if c.Yield {
+		n := pwCloneCase(c)
+		n.Yield = false
+		out = append(out, n)
+	}
 	if c.SGSplit && !c.MetaLag {
 		n := pwCloneCase(c)
 		n.SGSplit = false
@@ -154,9 +168,14 @@ func (worldP) Simplify(c PCase) []PCase {
 			n.Ops[i].Async = false
 			out = append(out, n)
 		}
-		if op.K == "crash" && (op.Back > 0 || op.Torn) {
+		if op.K == "crash" && (op.Back > 0 || op.Torn || op.Early) {
 			n := pwCloneCase(c)
-			n.Ops[i].Back, n.Ops[i].Torn = 0, false
+			n.Ops[i].Back, n.Ops[i].Torn, n.Ops[i].Early = 0, false, false
+			out = append(out, n)
+		}
+		if op.K == "w" && op.Tight {
+			n := pwCloneCase(c)
+			n.Ops[i].Tight = false
 			out = append(out, n)
 		}
 		if op.K == "run" && op.Ms > 1000 {
@@ -212,8 +231,8 @@ func (worldP) Neutralise(c PCase, name string) (PCase, bool) {
 		ch := false
 		n := pwCloneCase(c)
 		for i := range n.Ops {
-			if n.Ops[i].K == "crash" && (n.Ops[i].Back > 0 || n.Ops[i].Torn) {
-				n.Ops[i].Back, n.Ops[i].Torn = 0, false
+			if n.Ops[i].K == "crash" && (n.Ops[i].Back > 0 || n.Ops[i].Torn || n.Ops[i].Early) {
+				n.Ops[i].Back, n.Ops[i].Torn, n.Ops[i].Early = 0, false, false
 				ch = true
 			}
 		}
@@ -254,7 +273,7 @@ func pwGenRows(r *core.Rand, c *PCase, written *[]SRow) []SRow {
 }
 
 func (worldP) Gen(r *core.Rand, env *core.Env) PCase {
-	c := PCase{Prop: env.Property, Knobs: genKnobs(r), Second: -1}
+	c := PCase{Prop: env.Property, Knobs: genKnobs(r), Second: -1, Cut: "observed"}
 	c.Knobs.ReplayParallel = false
 	if c.Knobs.Partitions > 4 {
 		c.Knobs.Partitions = 4
@@ -271,6 +290,29 @@ func (worldP) Gen(r *core.Rand, env *core.Env) PCase {
 	c.SplitMeta = r.Intn(8) == 0
 	c.SGSplit = r.Bool(0.4)
 	c.MetaLag = c.SGSplit && r.Bool(0.5)
+	// a quarter of the cases aims at the "persist before you send / answer" rule (p_flavours.go)
+	f := r.Intn(100)
+	dev := os.Getenv("VERIF_PFLAV") // development aid: every case of one flavour (never set by vsim)
+	if dev != "" {
+		f = 0
+	}
+	if f < 25 {
+		flav := "ack_kill"
+		switch {
+		case f >= 19:
+			flav = "send_kill_storm"
+		case f >= 14:
+			flav = "vote_kill"
+		case f >= 10:
+			flav = "leader_ack_kill"
+		}
+		if dev != "" {
+			flav = dev
+		}
+		pwGenFlavour(r, env, &c, flav)
+		return c
+	}
+	c.Yield = r.Bool(0.3)
 	nops := r.Range(10, 34)
 	if env.Tier == "thorough" {
 		nops = r.Range(12, 60)
@@ -471,6 +513,13 @@ type pwRun struct {
 	flushed  bool
 	unapplied bool // some acknowledged write had not been applied (listed finding stepped over)
 	flushCut bool // some crash so far cut the journal inside a memtable flush
+	heldNode int  // node whose links were slowed down last (-1: none)
+	pumpStop func() bool
+	headFilter func(m *pwMsg) bool
+	cand, voter, grants int
+	votes    map[[2]uint64]uint64 // (voter, term) -> candidate the vote went to
+	leaders  map[uint64]int       // term -> node seen acting as leader
+	proposed map[int][][2]int     // write key -> (node, cluster-wide incarnation) of every attempt that reached a store (under net.mu)
 }
 
 func (r *pwRun) logf(format string, a ...interface{}) {
@@ -491,12 +540,20 @@ func (r *pwRun) exec() {
 	r.model = newSModel()
 	r.faults = map[string]bool{}
 	r.window = map[string]bool{}
-	r.downNode, r.cutNode, r.leaderHint = -1, -1, -1
+	r.downNode, r.cutNode, r.leaderHint, r.heldNode = -1, -1, -1, -1
+	r.cand, r.voter = -1, -1
 	pwSeedRaft(c.Seed)
 	pwFreshGlobals()
 	r.phase = "bootstrap"
 	r.c = pwNewCluster(r.env, out, c.Knobs, c.NMst, time.Duration(c.SyncMs)*time.Millisecond, c.SGSplit)
 	r.c.lag = c.MetaLag
+	r.c.yield = c.Yield
+	if c.Flav != "" {
+		out.Stats["cases_flavour_"+c.Flav]++
+	}
+	if c.Yield {
+		out.Stats["cases_with_yield_before_fs_mutations"]++
+	}
 	for i := 0; i < pwNNodes; i++ {
 		if _, err := r.c.startNode(i, pwImagePath(r.env.Scratch, i, 0)); err != nil {
 			out.Violation = pviol("start_failed", fmt.Sprintf("starting node %d on an empty disk failed: %v", i, err), map[string]string{"phase": "bootstrap"})
@@ -545,7 +602,7 @@ var pwEpoch = time.Date(2000, 1, 1, 0, 0, 0, 0, time.UTC)
 
 func pwOpDigest(op POp) string {
 	var b strings.Builder
-	fmt.Fprintf(&b, "%s %d %v %d %d %s %d %v %v %v:", op.K, op.ID, op.Async, op.Ms, op.N, op.Sel, op.Back, op.Torn, op.OneW, op.Pause)
+	fmt.Fprintf(&b, "%s %d %v %d %d %s %d %v %v %v %v %v %s %s:", op.K, op.ID, op.Async, op.Ms, op.N, op.Sel, op.Back, op.Torn, op.OneW, op.Pause, op.Early, op.Tight, op.Until, op.Only)
 	for _, r := range op.Rows {
 		fmt.Fprintf(&b, "%d.%d.%d.%d,", r.M, r.S, r.T, r.F)
 	}
